@@ -51,6 +51,10 @@ Record join_inner := mkJoin {
   ji_aborted : bool;
 }.
 
+(* Thread-local storage of one task (shuttle-engine/src/runtime/storage.rs, StorageMap): the slots in
+   insertion order of their keys (None = destructed, a tombstone) and the keys still to destruct, front first *)
+Record tls_task := mkTls { tl_locals : list (nat * option N); tl_order : list nat }.
+
 Inductive obj :=
 | OAtomic (v : N) (c : vclock)                (* shuttle-std Atomic<T>: value + clock *)
 | OSem (s : sem)
@@ -61,7 +65,10 @@ Inductive obj :=
 | OBarrier (bound : nat) (epoch : nat) (waiters : list nat) (leader_tokens : list nat) (clk : vclock)
 | OOnce (st : once_state) (flag : bool) (mutex : nat)      (* `mutex` = index of the object holding the inner Mutex<bool> *)
 | OCell (vals : list N) (clk : vclock)
-| OJoins (l : list (nat * join_inner)).                     (* per async task id: its JoinHandle state *)                     (* plain shared cell used by the harness (join results etc.) *)
+| OJoins (l : list (nat * join_inner))
+| OTls (l : list (nat * tls_task))                           (* per task id: its StorageMap *)
+| OKey (init : N) (dtor : option nat)                        (* a thread_local! key of the harness: initial value, body run by the value's destructor *)
+| OScope (running : nat) (main : nat) (waiting : bool).     (* thread::Scope: num_running_threads, main_task, main blocked at the end of scope() *)                     (* per async task id: its JoinHandle state *)                     (* plain shared cell used by the harness (join results etc.) *)
 
 Definition store := list obj.
 
